@@ -4,6 +4,7 @@ mod c04w;
 mod c06s;
 mod c07;
 mod c08;
+mod c08w;
 mod c12;
 mod c14;
 mod c15;
@@ -87,6 +88,7 @@ fn main() {
             let (prop, part) = match name.as_str() {
                 "c11_attach" => ("C11", mt::part_c11_attach(tier)),
                 "c06_std" => ("C06", c06s::part_std(tier, false)),
+                "c08_exec" => ("C08", c08::part_exec(tier)),
                 "c07_std" => ("C07", c06s::part_std(tier, true)),
                 "c09_real" => ("C09", mt::part_c09_real(tier)),
                 "c14_threads" => ("C14", mt::part_c14_threads(tier)),
@@ -182,6 +184,7 @@ fn run_check(id: &str, tier: Tier) -> i32 {
         "C08" => {
             let mut r = Report::new("C08", tier, "exploration");
             r.parts.push(c08::part_parsers(tier));
+            r.parts.push(c08::part_exec(tier));
             finish(r)
         }
         "C09" => {
